@@ -113,7 +113,8 @@ func runC13Race(c *core.Ctx) {
 	var scs []sc
 	for _, v := range []int{1, 2} {
 		for _, n := range []int{1, 2, 4, 16, 64} {
-			scs = append(scs, sc{v, n, "never", 2}, sc{v, n, "concurrent", 5}, sc{v, n, "before", 2}, sc{v, n, "concurrent-unattainable", 243}, sc{v, n, "deadline-unattainable", 243}, sc{v, n, "expired-deadline", 2})
+			scs = append(scs, sc{v, n, "never", 2}, sc{v, n, "concurrent", 5}, sc{v, n, "before", 2}, sc{v, n, "concurrent-unattainable", 243}, sc{v, n, "deadline-unattainable", 243}, sc{v, n, "expired-deadline", 2},
+				sc{v, n, "never", 0}, sc{v, n, "far-deadline-cancelled-unattainable", 243}, sc{v, n, "far-deadline-never", 2})
 		}
 	}
 	for _, s := range scs {
@@ -136,7 +137,16 @@ func runC13Race(c *core.Ctx) {
 			if s.cancel == "expired-deadline" {
 				ctx, cancel = context.WithDeadline(context.Background(), time.Now().Add(-time.Hour))
 			}
-			if strings.HasPrefix(s.cancel, "concurrent") {
+			if strings.HasPrefix(s.cancel, "far-deadline") { // a context with a deadline that is cancelled long before it (or never)
+				var pcancel context.CancelFunc
+				ctx, pcancel = context.WithTimeout(context.Background(), time.Hour)
+				defer pcancel()
+				cancel = pcancel
+				if strings.Contains(s.cancel, "cancelled") {
+					ctx, cancel = context.WithCancel(ctx) // and a descendant of it: Deadline() is inherited
+				}
+			}
+			if strings.HasPrefix(s.cancel, "concurrent") || strings.Contains(s.cancel, "-cancelled-") {
 				go func(d time.Duration) { time.Sleep(d); cancel() }(time.Duration(i%7) * 50 * time.Microsecond)
 			}
 			type result struct {
@@ -179,7 +189,7 @@ func runC13Race(c *core.Ctx) {
 						problems++
 						notes = append(notes, fmt.Sprintf("v%d N=%d: invalid nonce", s.version, s.workers))
 					}
-				} else if s.cancel == "never" {
+				} else if strings.HasSuffix(s.cancel, "never") {
 					problems++
 					notes = append(notes, fmt.Sprintf("v%d N=%d: error %v without cancellation", s.version, s.workers, r.err))
 				}
